@@ -2376,7 +2376,7 @@ static double amplgsl_sf_mathieu_se(arglist *al) {
   int n = 0;
   double q = 0, x = 0;
   gsl_sf_result result = {0, 0};
-  if (!check_int_arg(al, 0, "n"))
+  if (!check_int_arg(al, 0, "n") || !check_args(al))
     return 0;
   n = (int)al->ra[0];
   q = al->ra[1];
@@ -2391,7 +2391,8 @@ static double amplgsl_sf_mathieu_Mc(arglist *al) {
   int j = 0, n = 0;
   double q = 0, x = 0;
   gsl_sf_result result = {0, 0};
-  if (!check_int_arg(al, 0, "j") || !check_int_arg(al, 1, "n"))
+  if (!check_int_arg(al, 0, "j") || !check_int_arg(al, 1, "n") ||
+      !check_args(al))
     return 0;
   j = (int)al->ra[0];
   n = (int)al->ra[1];
@@ -2407,7 +2408,8 @@ static double amplgsl_sf_mathieu_Ms(arglist *al) {
   int j = 0, n = 0;
   double q = 0, x = 0;
   gsl_sf_result result = {0, 0};
-  if (!check_int_arg(al, 0, "j") || !check_int_arg(al, 1, "n"))
+  if (!check_int_arg(al, 0, "j") || !check_int_arg(al, 1, "n") ||
+      !check_args(al))
     return 0;
   j = (int)al->ra[0];
   n = (int)al->ra[1];
